@@ -1116,11 +1116,20 @@ contract(
 contract(
     "odc.geo.math:resolution_from_affine",
     ["C02", "C20"],
-    inputs=dict(A=Build("affine:Affine", OneOf(Real(gt=0), Real(lt=0)), 0, Real(), 0, OneOf(Real(gt=0), Real(lt=0)), Real())),
-    ensures=[("axis-aligned: the pixel size is (a, e), signs included", lambda A, result: And(result.x == A.a, result.y == A.e))],
-    requires=[lambda A: And(A.b == 0, A.d == 0)],
+    inputs=[
+        dict(A=Build("affine:Affine", OneOf(Real(gt=0), Real(lt=0)), 0, Real(), 0, OneOf(Real(gt=0), Real(lt=0)), Real())),
+        dict(A=Build("affine:Affine", Real(), Real(), Real(), Real(), Real(), Real())),
+    ],
+    requires=[lambda A: Or(And(A.b == 0, A.d == 0), And(A.a * A.e - A.b * A.d != 0, Or(Abs(A.b) >= 1e-10, Abs(A.d) >= 1e-10)))],
+    ensures=[
+        ("axis-aligned: the pixel size is (a, e), signs included", lambda A, result: Implies(And(A.b == 0, A.d == 0), And(result.x == A.a, result.y == A.e))),
+        (
+            "rotated / sheared: the diagonal of the scale factor of A = R W S (R rotation, W unit shear): rx > 0, rx^2 == a^2 + d^2 (length of the image of a pixel's X edge), rx * ry == det A",
+            lambda A, result: Implies(Not(And(A.b == 0, A.d == 0)), And(result.x > 0, result.x * result.x == A.a * A.a + A.d * A.d, result.x * result.y == A.a * A.e - A.b * A.d)),
+        ),
+    ],
     returns=lambda A: Build(f"{TYPES}:Resolution", Real(), Real()),
-    note="rotated / sheared transforms go through decompose_rws (numpy.linalg): bounded check under C20; the precondition makes any caller that may pass a rotated transform fail its call-pre obligation instead of assuming this postcondition",
+    note="rotated / sheared transforms: proved against the ASSUMED documented form of decompose_rws (numpy.linalg; bounded check under C20); transforms whose rotation/shear terms are non-zero but below is_affine_st's 1e-10 are outside the quantifier",
 )
 
 
